@@ -8,7 +8,7 @@ import Props.C11
 `Model.Batch.State` mirrors `ApplyBatchImpl` (one function per batch operation), `State.plan` what
 `_create` needs from it, `Model.Batch.create` the statement sequence on the abstract SQLite.  The theorems
 quantify over every conversion table, every table (schema and rows), every operation sequence, both
-`reflected` settings, every `partial_reordering` argument; "accepted" = the run ends without exception.
+`reflected` settings, every `partial_reordering` argument, every schema label; "accepted" = the run ends without exception.
 -/
 namespace C10
 open Model.Batch Lemmas.Batch Spec.Batch
@@ -68,21 +68,21 @@ theorem overwritten_column_counterexample : ¬ values_statement := by
 re-uses, is still copied from the old column `k` (through the casts requested by type changes, if any):
 `column_transfers` never points a column at another column's data and never loses a source.
 Missing for the full statement: `add_column` silently replaces an existing column of the same name (C10-F2). -/
-theorem values_partial (tn : String) (refl : Bool) (s : Schema) (ops : List BatchOp) (pr : List (List String)) (st : State) (k : String)
+theorem values_partial (tn : String) (refl : Bool) (s : Schema) (ops : List BatchOp) (pr : List (List String)) (sl : String) (st : State) (k : String)
     (hk : k ∈ s.cols.map (·.name)) (ht : ∀ o ∈ ops, touches k o = false)
-    (hok : (State.init tn refl s pr).applyOps ops = .ok st) : ∃ e, feedOf st k = some e ∧ e.base = k := by
-  obtain ⟨tr, e, h1, h2, h3⟩ := survives_applyOps ops _ _ (init_verbatim tn refl s k hk pr).survives ht hok
+    (hok : (State.init tn refl s pr sl).applyOps ops = .ok st) : ∃ e, feedOf st k = some e ∧ e.base = k := by
+  obtain ⟨tr, e, h1, h2, h3⟩ := survives_applyOps ops _ _ (init_verbatim tn refl s k hk pr sl).survives ht hok
   exact ⟨e, by simp [feedOf, h1, h2], h3⟩
 
 /-- **C10.values.** … and when no operation changes its type either, the column is copied verbatim: for every
 row the new cell is the old cell (`feedValue` of the verbatim feed into a column of the same declared type). -/
-theorem values (tn : String) (refl : Bool) (s : Schema) (ops : List BatchOp) (pr : List (List String)) (st : State) (k : String)
+theorem values (tn : String) (refl : Bool) (s : Schema) (ops : List BatchOp) (pr : List (List String)) (sl : String) (st : State) (k : String)
     (hk : k ∈ s.cols.map (·.name)) (ht : ∀ o ∈ ops, touches k o = false) (hr : ∀ o ∈ ops, retypes k o = false)
-    (hok : (State.init tn refl s pr).applyOps ops = .ok st) :
+    (hok : (State.init tn refl s pr sl).applyOps ops = .ok st) :
     feedOf st k = some (.col k) ∧
     ∀ (ct : ConvTable) (c : ColDef) (row : Row), c.computed = none → srcType s.cols k = some c.ty →
       feedValue ct s.cols row (c, some (.col k)) = cell s.cols row k := by
-  obtain ⟨tr, h1, h2⟩ := verbatim_applyOps ops _ _ (init_verbatim tn refl s k hk pr) ht hr hok
+  obtain ⟨tr, h1, h2⟩ := verbatim_applyOps ops _ _ (init_verbatim tn refl s k hk pr sl) ht hr hok
   refine ⟨by simp [feedOf, h1, h2], ?_⟩
   intro ct c row hc hty
   simp [feedValue, evalExpr, Expr.base, hty, hc]
@@ -227,13 +227,13 @@ is carried into the new table with the same definition, over the final names of 
 The two things the code drops *by design* are exactly the negations of the hypotheses: an unnamed constraint is
 not covered (`c.name = some n`; unnamed reflected CHECKs are skipped in `_grab_table_elements`), and a constraint
 one of whose columns is dropped is omitted (`const_columns ⊄ column_transfers`). -/
-theorem kept_constraints (tn : String) (refl : Bool) (s : Schema) (ops : List BatchOp) (pr : List (List String)) (st : State) (c : Const) (n : String)
+theorem kept_constraints (tn : String) (refl : Bool) (s : Schema) (ops : List BatchOp) (pr : List (List String)) (sl : String) (st : State) (c : Const) (n : String)
     (hc : c ∈ tableConstraints s) (hn : c.name = some n)
     (huniq : ∀ c' ∈ tableConstraints s, c'.name = some n → c' = c)
     (hcols : ∀ k ∈ c.cols, k ∈ s.cols.map (·.name) ∧ ∀ o ∈ ops, touches k o = false)
     (hops : ∀ o ∈ ops, mentionsConst n o = false)
-    (hok : (State.init tn refl s pr).applyOps ops = .ok st) : CarriedOver st c := by
-  have h0 : alookup n (State.init tn refl s pr).named = some c := by
+    (hok : (State.init tn refl s pr sl).applyOps ops = .ok st) : CarriedOver st c := by
+  have h0 : alookup n (State.init tn refl s pr sl).named = some c := by
     simp only [State.init, grabConstraints]
     exact grab_named_lookup refl n c hn _ _ huniq (.inl hc)
   have h1 : alookup n st.named = some c :=
@@ -243,7 +243,7 @@ theorem kept_constraints (tn : String) (refl : Bool) (s : Schema) (ops : List Ba
     unfold State.constKept
     rw [List.all_eq_true]
     intro k hk
-    obtain ⟨tr, e, hl, _, _⟩ := survives_applyOps ops _ _ (init_verbatim tn refl s k (hcols k hk).1 pr).survives (hcols k hk).2 hok
+    obtain ⟨tr, e, hl, _, _⟩ := survives_applyOps ops _ _ (init_verbatim tn refl s k (hcols k hk).1 pr sl).survives (hcols k hk).2 hok
     exact ahas_of_alookup hl
   have hmem : c ∈ st.keptConsts := by
     simp only [State.keptConsts, List.mem_filter, List.mem_append, List.mem_map]
@@ -268,18 +268,18 @@ UNIQUE/CHECK/FK entries do not, no other constraint carries the primary key's na
 sequence that does not concern the primary key — no `add_constraint` of a PRIMARY KEY or under its name, no
 `drop_constraint` of its name, none of its columns dropped or re-added — the new table's primary key is the
 original one: same name, same columns in the same order, under their final names. -/
-theorem kept_primary_key (tn : String) (refl : Bool) (s : Schema) (ops : List BatchOp) (pr : List (List String)) (st : State)
+theorem kept_primary_key (tn : String) (refl : Bool) (s : Schema) (ops : List BatchOp) (pr : List (List String)) (sl : String) (st : State)
     (hkind : (tablePk s).kind = .pk)
     (hwf : ∀ x ∈ s.uniques ++ s.checks ++ s.fks, x.kind ≠ .pk)
     (hname : ∀ x ∈ s.uniques ++ s.checks ++ s.fks, (tablePk s).name.isSome → x.name ≠ (tablePk s).name)
     (hne : (tablePk s).cols ≠ [])
     (hcols : ∀ k ∈ (tablePk s).cols, k ∈ s.cols.map (·.name) ∧ ∀ o ∈ ops, touches k o = false)
     (hops : ∀ o ∈ ops, mentionsPk (tablePk s).name o = false)
-    (hok : (State.init tn refl s pr).applyOps ops = .ok st) :
+    (hok : (State.init tn refl s pr sl).applyOps ops = .ok st) :
     st.newPk = some { kind := .pk, name := (tablePk s).name, cols := (tablePk s).cols.map st.finalName } := by
   have hpk : isPk (tablePk s) = true := by simp [isPk, hkind]
   -- `_grab_table_elements`
-  have hinit : PkInv (State.init tn refl s pr) (tablePk s) := by
+  have hinit : PkInv (State.init tn refl s pr sl) (tablePk s) := by
     have hfirst : (refl && (tablePk s).kind == ConstKind.check && (tablePk s).name.isNone) = false := by simp [hkind]
     have := grab_pkInv refl (tablePk s) (s.uniques ++ s.checks ++ s.fks)
       (match (tablePk s).name with
@@ -311,7 +311,7 @@ theorem kept_primary_key (tn : String) (refl : Bool) (s : Schema) (ops : List Ba
     unfold State.constKept
     rw [List.all_eq_true]
     intro k hk
-    obtain ⟨tr, e, hl, _, _⟩ := survives_applyOps ops _ _ (init_verbatim tn refl s k (hcols k hk).1 pr).survives (hcols k hk).2 hok
+    obtain ⟨tr, e, hl, _, _⟩ := survives_applyOps ops _ _ (init_verbatim tn refl s k (hcols k hk).1 pr sl).survives (hcols k hk).2 hok
     exact ahas_of_alookup hl
   have hlist : st.keptConsts.filter (·.kind == .pk) = [tablePk s] := by
     have h1 : st.keptConsts.filter (·.kind == .pk) = (pkList st).filter st.constKept := by
@@ -335,10 +335,10 @@ theorem kept_primary_key (tn : String) (refl : Bool) (s : Schema) (ops : List Ba
 `self.indexes` after any accepted operation sequence, and `_gather_indexes_from_both_tables` (when it does not
 raise) re-creates it after the rename with the same name, the same uniqueness and the same `WHERE` predicate
 (partial indexes: `sqlite_where`), over the final names of its columns. -/
-theorem kept_indexes (tn : String) (refl : Bool) (s : Schema) (ops : List BatchOp) (pr : List (List String)) (st : State) (ix : Index)
+theorem kept_indexes (tn : String) (refl : Bool) (s : Schema) (ops : List BatchOp) (pr : List (List String)) (sl : String) (st : State) (ix : Index)
     (l : List Index) (hix : alookup ix.name ((s.indexes.map (fun i => (i.name, i)))) = some ix)
     (hd : ∀ o ∈ ops, dropsIndex ix.name o = false)
-    (hok : (State.init tn refl s pr).applyOps ops = .ok st) (hg : st.gatherIndexes = .ok l) :
+    (hok : (State.init tn refl s pr sl).applyOps ops = .ok st) (hg : st.gatherIndexes = .ok l) :
     ∃ ix' ∈ l, ix'.name = ix.name ∧ ix'.unique = ix.unique ∧ ix'.where_ = ix.where_ ∧
       ix'.cols = ix.cols.map (fun n => if ahas n st.columns then st.finalName n else n) := by
   have h1 : alookup ix.name st.indexes = some ix := index_kept_applyOps ops _ _ (by simpa [State.init] using hix) hd hok
